@@ -127,6 +127,10 @@ def run_case(seed, kind=None):
     if rec['kind'] in ('join', 'groupby', 'split') and 'ids' in a and a.get('ids_again_calls'):
         rec['memo_problems'] = [f'{rec["kind"]}: reading ids again re-executed {sorted(set(a["ids_again_calls"]))} although the id '
                                 f'mapping is kept in memory once per pipeline object']
+    if rec['kind'] == 'join' and a.get('wide_calls'):
+        f_, i_, wide = a['wide_calls'][0]
+        rec['memo_problems'] = rec['memo_problems'] + [f'join: one call {f_}({i_!r}) executed user functions for several entries {wide}: the id mapping, kept once per '
+                                                       f'pipeline object, was computed again']
     hash_checks(rec, b, layer, d, r)
     if rec['kind'] == 'split' and d['k'] == 'chain' and 'ids' in a and history is None:
         split_variant_check(rec, b, layer, d, a)
